@@ -7,6 +7,7 @@ import QclibModel.Proofs.BaaExact
 import QclibModel.Proofs.BaaNested
 import QclibModel.Proofs.BaaGreedyFin
 import QclibModel.Proofs.BaaNestedFin
+import QclibModel.Proofs.BaaTrueLoss
 /-
   C08 — bounded approximation (`BaaLowRankInitialize`, `util/baa.py`): exact at zero loss, faithful
   to its plan, within budget.  Property theorems only; proofs live in Proofs/Baa*.lean.
@@ -518,6 +519,7 @@ example {K : Type} [CommRing K] [StarRing K] :
   matrix form `(A₀ ⊗ B₀) ⊗ V₀` used in `C08_rank1_loss`, i.e. the index bookkeeping that
   `childOf_semOK` does for exact splits, redone for inner products.  The harness checks `true loss
   = accounted loss ≤ max_loss` numerically for every `n ≤ 3` case on every run.
+  (CLOSED later: `C08_true_loss_n3` at the end of this file proves that link and the full statement.)
 -/
 /-- **C08 (true loss for `n ≤ 3`, partial).**  For `2 ≤ n ≤ 3`, budget `≥ 0`, any strategy, and an
 oracle as in `C08_plan_nesting_n3`: the returned plan has accounted loss
@@ -551,5 +553,185 @@ theorem C08_true_loss_n3_partial {K : Type} [CommRing K] [LinearOrder K] [IsStri
     rw [hb w (star t0) hw]
     have := hc t0 l1 l2 h1 h2
     exact ⟨this, by rw [this]; exact hle⟩
+
+/-! ## Added later: the true loss for `n ≤ 3` — plan tensor ↔ bipartition-matrix form -/
+
+/-- **C08 (true loss for `n ≤ 3`; supersedes `C08_true_loss_n3_partial`).**  Losses in a linearly
+ordered commutative ring `K`, amplitudes in a commutative ring with conjugation `R` (e.g. `ℝ → ℂ`),
+`ι : K →+* R` the embedding.  Let `2 ≤ n ≤ 3`, the input `val vec` a unit vector on `n` qubits, any
+strategy / budget `≥ 0` / `max_combination_size` / `use_low_rank`, and an oracle that never reports
+rank `0`, answers rank-1 first without low rank (`GreedyOracle`) and meets the SVD specification
+`SvdSplits`: for a rank-1 answer the bipartition matrix of the vector across the local partition is
+`Σ_{i<k} U[:,i] σ_i V[i,:]` with `U₀`, `V₀` normalised and orthogonal to the other columns / rows,
+the new vectors are `U₀`, `V₀` and `fidelity_loss = 1 − conj(σ₀)σ₀`; for a higher-rank answer the
+approximate state has squared overlap `1 − fidelity_loss` with the vector (the conclusion of
+`C07_fidelity`).  Then for the plan `adaptive_approximation` returns — early exit or best leaf,
+registers interleaved arbitrarily — with `ov = ⟨val vec | state assembled by compose(gate,
+qubits[::-1]) + reverse_bits()⟩` (a sum over all `2^n` indices of the model's `assembled`):
+* the TRUE fidelity loss `1 − conj(ov)·ov` EQUALS the accounted `total_fidelity_loss`;
+* that is `1 − ∏(1 − l_i)` over a path of at most three nodes (root and at most two approximations);
+* it is `≤ max_fidelity_loss`;
+* and the assembled state is the plan tensor `Node.state_vector()` describes.
+The link proved here (`Proofs/BaaTrueLoss.lean`): at every reachable node the overlap of the input
+with the plan's product state, the factor on the still entangled register replaced by an ARBITRARY
+`w`, is `z·⟨current factor|w⟩` with `conj(z)z = 1 − total loss` (the index bookkeeping of
+`childOf_semOK` redone for inner products, through `sepIndexAx`/`undoIndexAx` re-indexing and
+`nested_overlap_row/col`); for `n ≤ 3` the sibling of the entangled register is a single qubit,
+kept exactly (`C08_plan_nesting_n3`), which is what makes the overlaps multiply. -/
+theorem C08_true_loss_n3 {K R : Type} [CommRing K] [LinearOrder K] [IsStrictOrderedRing K]
+    [CommRing R] [StarRing R] (ι : K →+* R) (O : Oracle K) (P : Params K) (hR : RankPos O)
+    (hG : GreedyOracle O) (n vec maxK : Nat) (hn : 2 ≤ n) (hn3 : n ≤ 3) (h0 : 0 ≤ P.maxLoss)
+    (val : Nat → Nat → R) (size : Nat → Nat) (hsize : size vec = n)
+    (hunit : sumTo (2 ^ n) (fun i => star (val vec i) * val vec i) = 1)
+    (hspec : SvdSplits ι O val size) (nd : Node K)
+    (h : adaptiveApproximation (orderedOps K) O P n vec maxK = some nd) :
+    let plan := nd.entries.map (fun e => (e.qubits, val e.vec))
+    let ov := sumTo (2 ^ n) (fun I => star (val vec I) * assembled 1 n plan I)
+    1 - star ov * ov = ι nd.totalLoss ∧
+    (∃ path : List (Node K), 1 ≤ path.length ∧ path.length ≤ 3 ∧
+      nd.totalLoss = chainLoss (path.map (·.nodeLoss))) ∧
+    nd.totalLoss ≤ P.maxLoss ∧
+    (∀ I, assembled 1 n plan I = planTensor 1 n plan I) := by
+  intro plan ov
+  have key : ∀ (P' : Params K) k0 path k,
+      Reach (orderedOps K) O P' (rootNode (orderedOps K) n vec) k0 path nd k →
+      ShapeInv n path nd ∧ TLInv ι n vec val size nd := fun P' k0 path k hr =>
+    reach_trueLoss ι O P' n vec k0 hn hn3 val size hsize hunit hspec hR
+      (properCandidates_all _ O hG P'.strategy) path nd k hr
+  have hinv : (∃ path : List (Node K), ShapeInv n path nd) ∧ TLInv ι n vec val size nd := by
+    rcases adaptive_reach _ O P n vec maxK nd h with ⟨_, path, k, hr⟩ | ⟨path, k, hr⟩
+    · exact ⟨⟨path, (key _ _ _ _ hr).1⟩, (key _ _ _ _ hr).2⟩
+    · exact ⟨⟨path, (key _ _ _ _ hr).1⟩, (key _ _ _ _ hr).2⟩
+  obtain ⟨⟨path0, hsh⟩, hi⟩ := hinv
+  have hlt : ∀ p ∈ plan, ∀ q ∈ p.1, q < n := by
+    intro p hp q hq
+    obtain ⟨e, he, rfl⟩ := List.mem_map.mp hp
+    have : q ∈ nd.entries.flatMap (·.qubits) := List.mem_flatMap.mpr ⟨e, he, hq⟩
+    simpa using (hsh.reg.cover.mem_iff.mp this)
+  have hasm : ∀ I, assembled 1 n plan I = planTensor 1 n plan I :=
+    fun I => assembled_eq_planTensor 1 n plan hlt I
+  have hov : ov = ovF n (val vec) (fun e => val e.vec) nd.entries := by
+    unfold ovF
+    refine sumTo_congr _ _ _ (fun I _ => ?_)
+    rw [hasm I]
+    congr 1
+    unfold planTensor planValueF
+    rw [List.foldl_map, List.prod_eq_foldl, List.foldl_map]
+  obtain ⟨path, h1, h2, h3, _⟩ := C08_plan_nesting_n3 O P hR hG n vec maxK hn nd h
+  refine ⟨?_, ⟨path, h1, by omega, h3⟩, (C08_budget_result O P n vec maxK h0 nd h).1, hasm⟩
+  rw [hov, trueLoss_of_inv ι n vec val size nd hi, map_sub, map_one]
+  ring
+
+/-- **C08 (true loss for `n ≤ 3`, one ordered ring for losses and amplitudes, e.g. `ℝ`).**  As
+`C08_true_loss_n3` with `R = K`, `ι = id`: the true loss `1 − conj(ov)·ov` of the returned plan
+equals `total_fidelity_loss` and is `≤ max_fidelity_loss`. -/
+theorem C08_true_loss_n3_le {K : Type} [CommRing K] [LinearOrder K] [IsStrictOrderedRing K]
+    [StarRing K] (O : Oracle K) (P : Params K) (hR : RankPos O) (hG : GreedyOracle O)
+    (n vec maxK : Nat) (hn : 2 ≤ n) (hn3 : n ≤ 3) (h0 : 0 ≤ P.maxLoss)
+    (val : Nat → Nat → K) (size : Nat → Nat) (hsize : size vec = n)
+    (hunit : sumTo (2 ^ n) (fun i => star (val vec i) * val vec i) = 1)
+    (hspec : SvdSplits (RingHom.id K) O val size) (nd : Node K)
+    (h : adaptiveApproximation (orderedOps K) O P n vec maxK = some nd) :
+    let plan := nd.entries.map (fun e => (e.qubits, val e.vec))
+    let ov := sumTo (2 ^ n) (fun I => star (val vec I) * assembled 1 n plan I)
+    1 - star ov * ov = nd.totalLoss ∧ 1 - star ov * ov ≤ P.maxLoss := by
+  intro plan ov
+  have := C08_true_loss_n3 (RingHom.id K) O P hR hG n vec maxK hn hn3 h0 val size hsize hunit
+    hspec nd h
+  simp only [RingHom.id_apply] at this
+  exact ⟨this.1, by rw [this.1]; exact this.2.2.1⟩
+
+/-- Non-vacuity of `C08_true_loss_n3(_le)`: over `ℤ`, every vector of the size-encoding demo oracle
+`C08_exactOracle` taken to be `|0…0⟩` (a unit vector; its bipartition matrix across ANY valid
+partition is `|0…0⟩ ⊗ |0…0⟩`, `σ₀ = 1`, loss `0`).  All hypotheses hold together — SVD specification,
+rank `≥ 1`, rank-1 first, size, normalisation — and the search returns a two-factor plan. -/
+example :
+    SvdSplits (RingHom.id ℤ) C08_exactOracle (fun _ i => if i = 0 then 1 else 0) C08_sizeOf ∧
+    RankPos C08_exactOracle ∧ GreedyOracle C08_exactOracle ∧ C08_sizeOf 0 = 2 ∧
+    sumTo (2 ^ 2) (fun i => star ((fun (_ i : Nat) => if i = 0 then (1 : ℤ) else 0) 0 i)
+      * (fun (_ i : Nat) => if i = 0 then (1 : ℤ) else 0) 0 i) = 1 ∧
+    (adaptiveApproximation (orderedOps ℤ) C08_exactOracle ⟨0, .split, false⟩ 2 0 0).map
+      (fun nd => nd.entries.map (fun e => (e.vec, e.qubits))) = some [(3, [0]), (4, [1])] := by
+  refine ⟨?_, ?_, fun v lp => ⟨_, [], rfl, rfl⟩, by decide, by decide, by decide⟩
+  · intro vec lp u s hs hlp hlt
+    simp only [C08_exactOracle, List.mem_singleton] at hs
+    subst hs
+    have hva : ValidAxes (C08_sizeOf vec) lp := ⟨hlp.imp (fun h => by omega), hlt⟩
+    refine ⟨fun _ => ⟨?_, ?_, 1, fun r _ => if r = 0 then 1 else 0, fun _ => 1,
+      fun _ c => if c = 0 then 1 else 0, by decide, ?_, ?_, ?_, fun _ _ => rfl, fun _ _ => rfl,
+      by simp⟩, fun h => absurd rfl h⟩
+    · simp only [C08_sizeOf]
+      have : (2 * lp.length + 1) % 2 = 1 := by omega
+      simp [this]
+    · simp only [C08_sizeOf]
+      split <;> simp
+    · intro r c hr hc
+      rw [sepMat_e0 hva r c hr hc]
+      simp [composeMat, sumTo]
+    · intro i hi
+      have : i = 0 := by omega
+      subst this
+      rw [if_pos rfl]
+      exact sumTo_e0 _ (Nat.pos_of_ne_zero (by simp))
+    · intro i hi
+      have : i = 0 := by omega
+      subst this
+      rw [if_pos rfl]
+      exact sumTo_e0 _ (Nat.pos_of_ne_zero (by simp))
+  · intro v lp u s hs
+    simp only [C08_exactOracle, List.mem_singleton] at hs
+    subst hs
+    exact Nat.le_refl 1
+
+/-- **C08 (the higher-rank clause of `SvdSplits` is C07's fidelity).**  Over any field with
+conjugation: if the bipartition matrix of `val vec` across a valid local partition `lp` meets the
+SVD specification (`Σ_{i<k} U[:,i] σ_i V[i,:]`, orthonormal columns / rows, real `σ`), and the
+approximate state is what `_create_node` builds for an answer of rank `r > 1` —
+`schmidt_composition(U, V, σ[:r]/N, lp)` with `N = sqrt(1 − fidelity_loss)` real,
+`fidelity_loss = 1 − Σ_{i<r} σ_i²` — then `⟨val vec | approximate state⟩ = N` and
+`conj(N)·N = 1 − fidelity_loss`: exactly the clause `SvdSplits` asks of a higher-rank answer. -/
+theorem C08_lowrank_answer {K : Type} [Field K] [StarRing K] (m : Nat) (lp : List Nat)
+    (hlp : lp.Pairwise (· < ·)) (hlt : ∀ a ∈ lp, a < m) (v : Nat → K) (k r : Nat) (hle : r ≤ k)
+    (U : Nat → Nat → K) (σ : Nat → K) (V : Nat → Nat → K) (N loss : K)
+    (hU : ∀ i j, i < k → j < k → gramCols (2 ^ (m - lp.length)) U i j = if i = j then 1 else 0)
+    (hV : ∀ i j, i < k → j < k → gramRows (2 ^ lp.length) V i j = if i = j then 1 else 0)
+    (hσ : ∀ i, star (σ i) = σ i) (hNs : star N = N) (hN : N ≠ 0)
+    (hloss : loss = 1 - sumTo r (fun i => σ i * σ i)) (hNN : N * N = 1 - loss)
+    (hsvd : ∀ x y, x < 2 ^ (m - lp.length) → y < 2 ^ lp.length →
+      sepMat m lp v x y = composeMat k U σ V x y) :
+    ∃ z : K, ipTo (2 ^ m) v (schmidtCompose m lp r U (renorm N σ) V) = z ∧
+      star z * z = (RingHom.id K) (1 - loss) := by
+  have hva : ValidAxes m lp := ⟨hlp.imp (fun h => by omega), hlt⟩
+  have hNN' : N * N = sumTo r (fun i => σ i * σ i) := by rw [hNN, hloss]; ring
+  have := lowrank_overlap hva v k r hle U σ V N hU hV hσ hNs hN hNN' hsvd
+  exact ⟨N, this.1, by rw [this.2, RingHom.id_apply, hloss]; ring⟩
+
+/-- Non-vacuity of `C08_lowrank_answer` over `ℚ`: two qubits, local partition `[0]`, the vector
+`|00⟩`, `U = V = I₂`, `σ = (1, 0)`, rank `r = 2`, `N = 1`, loss `0`. -/
+example :
+    (∀ i j, i < 2 → j < 2 → gramCols (K := ℚ) (2 ^ (2 - [0].length))
+      (fun r i => if r = i then 1 else 0) i j = if i = j then 1 else 0) ∧
+    (∀ i j, i < 2 → j < 2 → gramRows (K := ℚ) (2 ^ [0].length)
+      (fun i c => if i = c then 1 else 0) i j = if i = j then 1 else 0) ∧
+    (∀ x y, x < 2 ^ (2 - [0].length) → y < 2 ^ [0].length →
+      sepMat 2 [0] (fun i => if i = 0 then (1 : ℚ) else 0) x y
+        = composeMat 2 (fun r i => if r = i then 1 else 0) (fun i => if i = 0 then 1 else 0)
+            (fun i c => if i = c then 1 else 0) x y) ∧
+    ((1 : ℚ) * 1 = 1 - 0 ∧ (0 : ℚ) = 1 - sumTo 2 (fun i =>
+      (fun i => if i = 0 then (1 : ℚ) else 0) i * (fun i => if i = 0 then (1 : ℚ) else 0) i)) := by
+  refine ⟨?_, ?_, ?_, by norm_num, by simp [sumTo]⟩
+  · intro i j hi hj
+    rcases (by omega : i = 0 ∨ i = 1) with rfl | rfl <;>
+      rcases (by omega : j = 0 ∨ j = 1) with rfl | rfl <;> simp [gramCols, sumTo]
+  · intro i j hi hj
+    rcases (by omega : i = 0 ∨ i = 1) with rfl | rfl <;>
+      rcases (by omega : j = 0 ∨ j = 1) with rfl | rfl <;> simp [gramRows, sumTo]
+  · intro x y hx hy
+    have hva : ValidAxes 2 [0] := ⟨by simp, by simp⟩
+    rw [sepMat_e0 hva x y hx hy]
+    have hx' : x < 2 := hx
+    have hy' : y < 2 := hy
+    rcases (by omega : x = 0 ∨ x = 1) with rfl | rfl <;>
+      rcases (by omega : y = 0 ∨ y = 1) with rfl | rfl <;> simp [composeMat, sumTo]
 
 end Qclib
